@@ -361,14 +361,14 @@ impl Monitor {
                         self.regions.truncate(idx);
                     }
                     if let Instruction::ResumeLabel(_) = instruction {
-                        // RESUME label from an error raised inside a subprogram abandons
-                        // activations without unwinding them: region tracking ends here
-                        if self
+                        // RESUME label continues in the main module: the activations that
+                        // were active when the error occurred are abandoned (and unwound)
+                        if let Some(idx) = self
                             .regions
                             .iter()
-                            .any(|r| r.kind != RegionKind::Main)
+                            .position(|r| r.kind == RegionKind::Activation)
                         {
-                            self.tainted = true;
+                            self.regions.truncate(idx);
                         }
                         self.calls.clear();
                     }
